@@ -346,13 +346,25 @@ func c09exec(c *Ctx, w *c09world, t, i int, op c09op) {
 			l.Log(lv, "m", zap.Int("t", t), zap.Int("i", i), zap.Duration("d", time.Second), zap.Error(errors.New("e")))
 		}
 	case 1:
-		switch op.b % 3 {
+		switch (op.b + op.c) % 7 {
 		case 0:
 			s.Infow("m", "t", t, "i", i)
 		case 1:
 			s.Warnf("m %d %d", t, i)
-		default:
+		case 2:
 			s.Errorln("m", t, i)
+		case 3:
+			// derivations on the shared sugared logger
+			s.With("t", t, zap.Int("i", i)).Debugw("sugar child", "k", []int{t})
+		case 4:
+			s.WithLazy("t", t).Named("n").Info("sugar lazy child ", i)
+		case 5:
+			s.WithOptions(zap.AddCallerSkip(0)).Desugar().Info("desugared", zap.Int("t", t))
+		default:
+			// malformed key/value lists report through the same logger
+			s.Warnw("odd", "dangling")
+			s.Log(lv, "m", t)
+			s.Logw(lv, "m", 42, "non-string key")
 		}
 	case 2:
 		if ce := l.Check(lv, "m"); ce != nil {
